@@ -175,6 +175,7 @@ class Interp(StmtMixin, ExprMixin, CallMixin, BuiltinMixin, OMapMixin, EngineBas
         while work:
             prefix = work.pop()
             self.trail = list(prefix)
+            self.merge_depth = 0
             self.pos = 0
             self.pending = []
             res.paths += 1
@@ -254,7 +255,7 @@ class Interp(StmtMixin, ExprMixin, CallMixin, BuiltinMixin, OMapMixin, EngineBas
             self.st.heap.setdefault(k, v)
         entry_alloc = self.st.alloc
         self.top_entry = {"params": params, "alloc": entry_alloc}
-        if not self.feasible() or self._entry_contradictory():
+        if not self.oracle(self.feasible) or self._entry_contradictory():
             self.oblige("vacuity", False, fdef.node, "precondition is unsatisfiable")
             raise PathEnd()
         outcome, payload = None, None
